@@ -124,7 +124,7 @@ def big_mutations(blob: bytes, size: int = 65536):
 
 
 WEAK = ["empty", "zeros64", "zeros32", "ff64", "rkid x4", "key nonce x2", "sd digest x2"]
-FORGE_POS = [(31, 31), (31, 0), (0, 31), (0, 0), (17, 13), (17, 31), (31, 13), (16, 13), (18, 13), (17, 12), (17, 14)]
+FORGE_POS = [(31, 31), (31, 0), (0, 31), (0, 0), (0, 5), (0, 3), (17, 13), (17, 31), (31, 13), (16, 13), (18, 13), (17, 12), (17, 14)]
 STAGES = ["as L2 key", "as L1 key", "as L0 seed", "as root key"]
 
 
@@ -172,7 +172,15 @@ def history_cache(base: bm.Base, kind: str):
     from env import refdc, secctx, transport
     from ref import gkdi
 
-    pos = {"root+protect@31": (bm.POS[0], 31, 31), "root+l0flips+protect": (bm.POS[0], 20, 3)}.get(kind, bm.POS)
+    pos = {"root+protect@31": (bm.POS[0], 31, 31), "root+l0flips+protect": (bm.POS[0], 20, 3), "dc@L1=0": (bm.POS[0], 0, 5)}.get(kind, bm.POS)
+    if kind in ("root+pickle", "root+deepcopy"):
+        # the cache object has travelled (pickle: another process / a task queue; deepcopy) after it was used once
+        import copy
+        import pickle
+
+        c0 = seams.make_cache(base.rk)
+        assert bytes(dpapi_ng.ncrypt_unprotect_secret(base.blob, cache=c0)) == base.plaintext
+        return pickle.loads(pickle.dumps(c0)) if kind == "root+pickle" else copy.deepcopy(c0)
     ft = (pos[0] * 1024 + pos[1] * 32 + pos[2]) * gkdi.B + 777
     kw = dict(server="dc", username="u", password="p", auth_protocol="ntlm")
     if kind.startswith("root+"):
@@ -194,7 +202,7 @@ def history_cache(base: bm.Base, kind: str):
     with seams.clock(ft), transport.network(dc), secctx.scripted_client(lambda u, p, **k: secctx.ScriptedContext([b"C1"], 16)):
         if not kind.startswith("root+"):
             assert bytes(dpapi_ng.ncrypt_unprotect_secret(base.blob, cache=cache, **kw)) == base.plaintext
-        if kind != "dc":
+        if kind not in ("dc", "dc@L1=0"):
             dpapi_ng.ncrypt_protect_secret(b"later", bm.SID, root_key_identifier=base.rk.rkid, cache=cache, **kw)
     return cache
 
@@ -337,8 +345,15 @@ def run_shard(shard, tier, seed, acc) -> None:
         base = bm.base_by_id(seed, shard[1])
         n = 0
         try:
-            for kind in ("dc", "dc+protect", "root+protect@31", "root+l0flips+protect"):
+            for kind in ("dc", "dc+protect", "root+protect@31", "root+l0flips+protect", "dc@L1=0", "root+pickle", "root+deepcopy"):
                 _hist_cache["cache"] = None
+                if kind == "dc@L1=0":
+                    # the blob lies in the FIRST L1 interval: the envelope the DC sends for it has no L1 key
+                    from ref import cms as _cms
+
+                    d_ = seams.Drbg(("C04L10", seed, base.bid))
+                    pos0 = (bm.POS[0], 0, 5)
+                    base = bm.Base(base.bid, base.rk, _cms.ref_encrypt(base.rk, bm.SID, base.plaintext, pos0, cek=d_.bytes(32), gcm_nonce_=d_.bytes(12), key_nonce=d_.bytes(32), domain="domain.test", forest="forest.test", in_envelope="/env" in base.bid), base.plaintext)
                 _hist_cache["cache"] = history_cache(base, kind)
                 st, v = unprotect(base, base.blob)
                 if st != "ok" or bytes(v) != base.plaintext:
@@ -347,10 +362,11 @@ def run_shard(shard, tier, seed, acc) -> None:
                 for weak in WEAK:
                     for stage in STAGES:
                         for pos in FORGE_POS:
-                            label = ["forge", weak, stage, list(pos), bm.POS[0], kind]
-                            oc = judge(acc, base, label, forge(base, weak, stage, pos, bm.POS[0]), [], "async" if n % 2 else "sync")
-                            acc.outcome("forge-hist:" + oc.split(":")[0])
-                            n += 1
+                            for l0_ in ((bm.POS[0], bm.POS[0] - 1, bm.POS[0] + 1) if stage == "as root key" else (bm.POS[0],)):
+                                label = ["forge", weak, stage, list(pos), l0_, kind]
+                                oc = judge(acc, base, label, forge(base, weak, stage, pos, l0_), [], "async" if n % 2 else "sync")
+                                acc.outcome("forge-hist:" + oc.split(":")[0])
+                                n += 1
         finally:
             _hist_cache["cache"] = None
         acc.ev(n)
